@@ -602,7 +602,28 @@ def n11_ref_patterns(src, log):
                 hit = (i, j)
                 break
         if hit is None:
-            return src
+            # for &x in E { B }  ->  for __vx_refK in E { let x = *__vx_refK; B }
+            for i, t in enumerate(toks):
+                if t.text == "for" and t.kind == "ident" and i + 3 < len(toks) and toks[i + 1].text == "&" \
+                        and toks[i + 2].kind == "ident" and toks[i + 3].text == "in":
+                    d = t.depth
+                    j = i + 4
+                    while j < len(toks) and not (toks[j].text == "{" and toks[j].depth == d):
+                        if toks[j].kind == "open":
+                            j = toks[j].mate
+                        j += 1
+                    hit = (i, j)
+                    break
+            if hit is None:
+                return src
+            i, j = hit
+            k += 1
+            name = toks[i + 2].text
+            edits = [(toks[i + 1].start, toks[i + 2].end, f"__vx_ref{k}"),
+                     (toks[j].end, toks[j].end, f" let {name} = *__vx_ref{k};")]
+            src = _apply(src, edits)
+            log.append(f"N11 pattern for &{name} -> for __vx_ref{k} + explicit deref")
+            continue
         i, j = hit
         k += 1
         name = toks[i + 5].text
